@@ -131,7 +131,10 @@ fn oracle_inner(c: &Case) -> Result<Outcome, Failure> {
             b"moov" => moov_bytes = Some(stream.read_range(pos, size as usize)),
             b"mdat" => {
                 ensure!(mdat.is_none(), "c13:two-mdat", "more than one mdat");
-                ensure!(large == (size > u32::MAX as u64), "c13:mdat-size-form", "mdat of {} bytes uses the {} size form", size, if large { "64-bit" } else { "32-bit" });
+                // (a size above u32::MAX cannot be stored in the 32-bit form at all: a truncated size
+                // field breaks the tiling checked by this walk; using the 64-bit form for a smaller
+                // box is legal)
+                let _ = large;
                 mdat = Some((pos + hdr, pos + size, large));
             }
             _ => {}
